@@ -401,7 +401,41 @@ bool Exec<Cfg>::run_real(Op const& op) {
 			else if(got != want) fail("V-value", "view elements differ from the composition of the documented index mappings");
 		}
 	} break;
+	case O_REF_ASSIGN:
+		handled = with_dim(op.da, [&](auto Dc) {
+			constexpr int D = decltype(Dc)::value;
+			Arr<D>&       a = pool<D>().at(op.a);
+			Arr<D>&       b = pool<D>().at(op.b);
+			multi::array_ref<E, D, P> ra(a.data_elements(), a.extensions());
+			multi::array_ref<E, D, P> rb(b.data_elements(), b.extensions());
+			OpScope s;
+			switch(op.var) {
+			case 0: ra = static_cast<multi::array_ref<E, D, P> const&>(rb); break;
+			case 1: ra = std::move(rb); break;
+			case 2: std::move(ra) = static_cast<multi::array_ref<E, D, P> const&>(rb); break;
+			default: std::move(ra) = std::move(rb); break;
+			}
+		});
+		break;
 	case O_COMPARE: {
+		if(op.var == 1) {
+			handled = with_dim(op.da, [&](auto Dc) {
+				constexpr int D = decltype(Dc)::value;
+				Arr<D> const& a = pool<D>().at(op.a);
+				Arr<D> const& b = pool<D>().at(op.b);
+				MArr const&   ma = M.at(D, op.a);
+				MArr const&   mb = M.at(D, op.b);
+				bool const    want = ma.same_extents(mb) && ma.v == mb.v;
+				bool          eq, ne;
+				{
+					OpScope s;
+					eq = (a == b);
+					ne = (a != b);
+				}
+				if(eq != want || ne == want) fail("V-compare", "operator==/!= between two arrays disagrees with extents-and-elements comparison");
+			});
+			break;
+		}
 		AV xa, ya;
 		if(!real_view(op.da, op.a, op.ca, xa) || !real_view(op.db, op.b, op.cb, ya) || xa.D != ya.D) return false;
 		MView mx, my;
